@@ -82,8 +82,11 @@ fn declared_menu() -> Vec<Vec<(Vec<W>, Vec<W>)>> {
 
 fn cases(tier: Tier, mut f: impl FnMut(u64, CkCase)) {
     let mut i = 0u64;
-    let counts: &[W] = &[0, 1, 2, 3];
-    let keys: Vec<Vec<W>> = vec![vec![0], vec![1], vec![MAX], vec![0, MAX], vec![MAX, MAX], vec![]];
+    let counts: &[W] = if tier == Tier::Thorough { &[0, 1, 2, 3, 4] } else { &[0, 1, 2, 3] };
+    let mut keys: Vec<Vec<W>> = vec![vec![0], vec![1], vec![MAX], vec![0, MAX], vec![MAX, MAX], vec![]];
+    if tier == Tier::Thorough {
+        keys.extend([vec![2], vec![MAX - 1], vec![1, MIN], vec![0, 0, MAX]]);
+    }
     let computed: Vec<Vec<(Vec<W>, Vec<W>)>> = vec![vec![], vec![(vec![2], vec![3])], vec![(vec![0], vec![3])]];
     for (pre, strict) in pre_states() {
         for declared in declared_menu() {
@@ -216,7 +219,7 @@ fn cases(tier: Tier, mut f: impl FnMut(u64, CkCase)) {
 }
 
 fn run(cfg: &RunCfg, rep: &mut Report) {
-    rep.bound_completed = "full product of the listed menus (same in both tiers)".to_string();
+    rep.bound_completed = format!("full product of the listed menus{}", if cfg.tier == Tier::Thorough { " plus counts up to 4 and keys [2], [MAX-1], [1,MIN], [0,0,MAX]" } else { "" });
     cases(cfg.tier, |i, case| {
         if cfg.mine(i) {
             wal::tick();
@@ -226,7 +229,7 @@ fn run(cfg: &RunCfg, rep: &mut Report) {
             run_case("C03", &case, (true, true), rep);
         }
     });
-    rep.states = rep.distinct_nontrivial.len() as u64;
+    rep.states = rep.nontrivial_evals; // the enumeration never repeats a case
 }
 
 fn replay(case: &Value) -> Result<bool, String> {
